@@ -86,6 +86,12 @@ func (r *Range) M__getitem__(key Object) (Object, error) {
 		return computeRangeSlice(r, slice)
 	}
 
+	if b, ok := key.(*BigInt); ok {
+		// Too big for an Int is out of range for any range
+		if _, err := b.Int(); err != nil {
+			return nil, ExceptionNewf(IndexError, "range object index out of range")
+		}
+	}
 	index, err := Index(key)
 	if err != nil {
 		return nil, err
